@@ -51,7 +51,7 @@ struct Choices {
     int pick(int n) { return n <= 1 ? (void(raw()), 0) : (int)(raw() % (uint32_t)n); }
     int range(int lo, int hi) { return lo + pick(hi - lo + 1); } // inclusive
     bool flip() { return pick(2) == 1; }
-    bool chance(int num, int den) { return pick(den) < num; }
+    bool chance(int num, int den) { return pick(den) >= den - num; } // exhausted stream => false
     template <class T> const T& of(const std::vector<T>& xs) { return xs[pick((int)xs.size())]; }
 };
 
